@@ -170,8 +170,9 @@ def run(ck):
     # read direction: the same behaviours on the scripted stream and on real conns
     gens.append(pool.submit(gen, "cover", "reads", C(MaxItems=2, MaxLen=2, MaxW=0), mem + conn, 3 if quick else 1))
     # payloads whose size is an allocation size class or a few bytes below one (1..3 tokens of 2048, 2047, 4096,
-    # 65535, 65536 bytes): buffer growth that is a few bytes short of what the frame needs only shows there
-    classes = ["kind=mem,scale=%d" % n for n in ((2048, 2047, 4096, 65535) if quick else (2048, 2047, 2046, 4096, 4095, 8192, 65536, 65535, 65534))]
+    # 65535, 65536 bytes): buffer growth that is a few bytes short of what the frame needs only shows there; and of
+    # 0.7 / 1.1 MB, so that the source buffer is beyond a megabyte when the next length prefix arrives in pieces
+    classes = ["kind=mem,scale=%d" % n for n in ((2048, 2047, 4096, 65535, 700000) if quick else (2048, 2047, 2046, 4096, 4095, 8192, 65536, 65535, 65534, 700000, 1100000))]
     gens.append(pool.submit(gen, "cover", "reads at size classes", C(MaxItems=2, MaxLen=3 if not quick else 2, MaxW=0, Hostile="FALSE"),
                             classes, 12 if quick else 4))
     gens.append(pool.submit(gen, "cover", "writes at size classes", C(MaxItems=0, MaxW=2, MaxLen=2, TxCap=3), classes[:2], 12 if quick else 4))
